@@ -10,6 +10,8 @@ for d in seeded/*${pat}*/; do
   [ -f "$d/meta.json" ] || continue
   patch="$d/patch.diff"; [ -f "$d/patch_rebased.diff" ] && patch="$d/patch_rebased.diff"
   props=$(/venv/bin/python -c "import json,sys; m=json.load(open('$d/meta.json')); print(' '.join(m.get('caught_by') or [m['property']]))")
+  skip=$(/venv/bin/python -c "import json; print(json.load(open('$d/meta.json')).get('skip_on_head',''))")
+  if [ -n "$skip" ]; then echo "SKIPPED $name  $(echo "$skip" | cut -c1-160)"; continue; fi
   if ! git -C /repo apply --check "$PWD/$patch" 2>/dev/null; then
     base=$(/venv/bin/python -c "import json; print(json.load(open('$d/meta.json')).get('base','?'))")
     echo "SKIPPED $name  does not apply to HEAD (base: $base)"; continue
